@@ -1,6 +1,54 @@
 // Interpreter ops over collections and higher-order operators (included inside namespace hv).
+template <typename F>
+void with_shape(const std::string &shape, F &&f)
+{
+    if (shape == "ts") f.template operator()<S_TS>();
+    else if (shape == "tss") f.template operator()<S_TSS>();
+    else if (shape == "tsd") f.template operator()<S_TSD>();
+    else if (shape == "tsl") f.template operator()<S_TSL>();
+    else if (shape == "tsb") f.template operator()<S_TSB>();
+    else if (shape == "tsw") f.template operator()<S_TSW>();
+    else if (shape == "dss") f.template operator()<S_DSS>();
+    else if (shape == "dsb") f.template operator()<S_DSB>();
+    else if (shape == "lb") f.template operator()<S_LB>();
+    else if (shape == "dd") f.template operator()<S_DD>();
+    else throw std::runtime_error("unknown shape " + shape);
+}
+
 bool Interp::exec_coll(Interp &I, const Stmt &s)
 {
-    (void)I; (void)s;
+    Wiring &w = I.w;
+    const Int uid = s.kwi("uid");
+    const auto &a = s.args;
+    if (s.op == "csrc")
+    {
+        const std::string shape = s.kws("shape", "tsd");
+        with_shape(shape, [&]<typename S>() {
+            auto p = wire<CSrc<S>>(w, uid);
+            I.env[s.dst] = PortVal{p.erased(), PT::Other, shape};
+        });
+        return true;
+    }
+    if (s.op == "cmirror")
+    {
+        PortVal v = I.get(a.at(0));
+        with_shape(v.shape, [&]<typename S>() { wire<CMirror<S>>(w, Port<S>{w, v.ref}, uid); });
+        return true;
+    }
+    if (s.op == "cprobe")
+    {
+        PortVal v = I.get(a.at(0));
+        with_shape(v.shape, [&]<typename S>() { wire<CProbe<S>>(w, Port<S>{w, v.ref}, I.pi(a.at(1)), uid); });
+        return true;
+    }
+    if (s.op == "ccopy")
+    {
+        PortVal v = I.get(a.at(0));
+        with_shape(v.shape, [&]<typename S>() {
+            auto p = wire<CCopy<S>>(w, Port<S>{w, v.ref}, uid);
+            I.env[s.dst] = PortVal{p.erased(), PT::Other, v.shape};
+        });
+        return true;
+    }
     return false;
 }
